@@ -17,6 +17,14 @@ type Rule struct {
 	Prec   string   `json:"prec,omitempty"`   // symbol after %prec, "" if none
 	Action string   `json:"action,omitempty"` // text between the braces, "" = no action
 	HasAct bool     `json:"has_act,omitempty"`
+	// Mid: actions written between the symbols of the right-hand side (mid-rule actions)
+	Mid []MidAct `json:"mid,omitempty"`
+}
+
+// MidAct is an action written after the first After symbols of a right-hand side.
+type MidAct struct {
+	After int    `json:"after"`
+	Text  string `json:"text"`
 }
 
 func (r Rule) String() string {
@@ -231,7 +239,12 @@ func (s *Spec) Render() string {
 			}
 			b.WriteString(r.L + " :")
 		}
-		for _, x := range r.R {
+		for xi, x := range r.R {
+			for _, m := range r.Mid {
+				if m.After == xi {
+					b.WriteString(" {" + m.Text + "}")
+				}
+			}
 			b.WriteString(" " + x)
 		}
 		if r.Prec != "" {
